@@ -10,7 +10,7 @@ G = globrun.G
 PATS = ['*', '*.txt', 'd/*', '**/a', 'a', 'd/**', '**', 'Sub/*.txt', 'Sub/A*', 'sub/*', '{a,b.txt}', 'a|d/a', '.*', '**/*.txt', 'd/e/*', '*/', 'c/**', '[ab]*', 'D/*', 'd/a', 'SUB/*']
 EXCL = [(), ('*.txt',), ('d/**',), ('a', '**/e/'), ('.*',), ('*',), ('**/',)]
 FLAGSETS = {'G': G.G, 'G|Q': G.G | G.Q, 'G|I': G.G | G.I, 'G|I|Q': G.G | G.I | G.Q, 'G|B|S': G.G | G.B | G.S, 'G|O': G.G | G.O, 'G|SD|D': G.G | G.SD | G.D,
-            'G|D': G.G | G.D, 'G|B|S|Q': G.G | G.B | G.S | G.Q}
+            'G|D': G.G | G.D, 'G|I|C': G.G | G.I | G.C, 'G|B|S|Q': G.G | G.B | G.S | G.Q}
 
 
 def run(chk, tier, seed):
@@ -18,7 +18,7 @@ def run(chk, tier, seed):
     lists = [(p,) for p in PATS[:10]] + list(itertools.combinations(PATS[:12], 2))
     for _ in range(60 if tier == 'quick' else 600):
         lists.append(tuple(rnd.choice(PATS) for _ in range(rnd.randint(2, 4))))
-    fsets = ['G', 'G|Q', 'G|I', 'G|B|S', 'G|SD|D'] if tier == 'quick' else list(FLAGSETS)
+    fsets = ['G', 'G|Q', 'G|I', 'G|B|S', 'G|SD|D', 'G|I|C'] if tier == 'quick' else list(FLAGSETS)
     specs = {k: trees.NAMED[k] for k in (('basic', 'case') if tier == 'quick' else ('basic', 'case', 'nested', 'links'))}
     cases = []
     for fs in fsets:
